@@ -257,9 +257,9 @@ def main(argv):
             n = int(1600 * a.scale)
         else:
             cfgs = (a.configs.split(",") if a.configs else ALL_CONFIGS)
-            n = int(600000 * a.scale)
+            n = int(150000 * a.scale)
         exes = build_many(cfgs)
-        m = run_sharded("c17", "gen", (n // NCPU + 1, True), [(c, exes[c]) for c in cfgs], a.seed, timeout=3600)
+        m = run_rounds(1 if a.tier == "quick" else 4, "c17", "gen", (n // NCPU + 1, True), [(c, exes[c]) for c in cfgs], a.seed, timeout=3600)
         rep.merge(m)
         req = ["blake2s-grid", "clone", "reset", "finalize-and-reset", "finalize:empty", "total=rate", "total=rate-1", "total=rate+1", "total=55", "total=56",
                "total=64", "total=111", "total=112", "total=128", "extract:crosses-rate", "extract:n=0", "shake128:extract:n=rate", "shake256:total=multiple-of-rate",
